@@ -117,7 +117,7 @@ PROFILES = {
         "clean_p": 0.3,
         "force": ["id_new", "id_swap", "id_steal", "label_alias", "miss"],
         "merge_p": 0.45,
-        "fault_pool": ["miss", "ghost", "label_flip", "label_alias", "pose_noise", "id_new", "id_swap", "id_dup", "id_steal", "drop",
+        "fault_pool": ["miss", "ghost", "label_flip", "label_unknown", "label_alias", "pose_noise", "id_new", "id_swap", "id_dup", "id_steal", "drop",
                        "reorder", "scene_query", "dup_detection"],
         "small_ids": True,
         "max_samples": 9,
